@@ -35,7 +35,11 @@ def fmDigest (s : FMap.St) : String :=
 def fmapStep (s : FMap.St) (ws : List String) : FMap.St × String :=
   match ws with
   | "cfg" :: n :: cap :: mulp :: calls => match n.toNat?, cap.toNat?, parseNats calls with
-    | some n, some cap, some calls => (FMap.init ⟨n, cap, mulp == "1", calls⟩, "ok")
+    | some n, some cap, some calls => (FMap.init ⟨n, cap, mulp == "1", calls, false⟩, "ok")
+    | _, _, _ => (s, "bad-op")
+  | "cfgx" :: n :: cap :: mulp :: calls => match n.toNat?, cap.toNat?, parseNats calls with
+    -- the caller closes the generator at the last item of every call (`exact`)
+    | some n, some cap, some calls => (FMap.init ⟨n, cap, mulp == "1", calls, true⟩, "ok")
     | _, _, _ => (s, "bad-op")
   | ["step", t] => match fmParseTid t with
     | none => (s, "bad-op")
@@ -50,6 +54,6 @@ def fmapStep (s : FMap.St) (ws : List String) : FMap.St × String :=
       " running:" ++ joinWith "," ((s.workers.filter (fun w => w.pc != .exited)).map (fun w => toString w.wid)))
   | _ => (s, "bad-op")
 
-def fmapMachine : Machine := { σ := FMap.St, init := FMap.init ⟨1, 1, false, []⟩, step := fmapStep }
+def fmapMachine : Machine := { σ := FMap.St, init := FMap.init ⟨1, 1, false, [], false⟩, step := fmapStep }
 
 end WindVerif.Drv
